@@ -540,6 +540,28 @@ func (a String) M__imod__(other Object) (Object, error) {
 	return a.M__mod__(other)
 }
 
+// adjustIndices normalises the optional start and end arguments of
+// find, count, startswith and endswith the same way slicing does.
+//
+// NB beg isn't clipped to size so the caller must check for beg > end
+func adjustIndices(beg, end, size int) (int, int) {
+	if end > size {
+		end = size
+	} else if end < 0 {
+		end += size
+		if end < 0 {
+			end = 0
+		}
+	}
+	if beg < 0 {
+		beg += size
+		if beg < 0 {
+			beg = 0
+		}
+	}
+	return beg, end
+}
+
 // Returns position in string of n-th character
 //
 // returns end of string if not found
@@ -631,23 +653,14 @@ func (s String) Count(args Tuple) (Object, error) {
 		return nil, err
 	}
 
-	var (
-		beg  = int(pybeg.(Int))
-		end  = int(pyend.(Int))
-		size = s.len()
-	)
-	if beg > size {
-		beg = size
-	}
-	if end < 0 {
-		end = size
-	}
-	if end > size {
-		end = size
+	size := s.len()
+	beg, end := adjustIndices(int(pybeg.(Int)), int(pyend.(Int)), size)
+	if beg > end {
+		return Int(0), nil
 	}
 
 	var (
-		str = string(s.slice(beg, end, s.len()))
+		str = string(s.slice(beg, end, size))
 		sub = string(pysub.(String))
 	)
 	return Int(strings.Count(str, sub)), nil
@@ -665,31 +678,22 @@ func (s String) find(args Tuple) (Object, error) {
 		return nil, err
 	}
 
-	var (
-		beg  = int(pybeg.(Int))
-		end  = int(pyend.(Int))
-		size = s.len()
-	)
-	if beg > size {
-		beg = size
-	}
-	if end < 0 {
-		end = size
-	}
-	if end > size {
-		end = size
+	size := s.len()
+	beg, end := adjustIndices(int(pybeg.(Int)), int(pyend.(Int)), size)
+	if beg > end {
+		return Int(-1), nil
 	}
 
 	var (
-		off = s.slice(0, beg, s.len()).len()
-		str = string(s.slice(beg, end, s.len()))
+		str = string(s.slice(beg, end, size))
 		sub = string(pysub.(String))
 		idx = strings.Index(str, sub)
 	)
 	if idx < 0 {
 		return Int(idx), nil
 	}
-	return Int(off + String(str[:idx]).len()), nil
+	// beg is the offset in characters of str in s
+	return Int(beg + String(str[:idx]).len()), nil
 }
 
 func (s String) Split(args Tuple, kwargs StringDict) (Object, error) {
